@@ -44,14 +44,17 @@ type cbSchedule struct {
 	InOnData  bool     `json:"inondata"`
 	Steps     []cbStep `json:"steps"`
 	Raw       bool     `json:"raw"`
+	// KeepPinned: OnData does not release what it read, the slices stay pinned in the read buffer until the close
+	KeepPinned bool `json:"keeppinned"`
 }
 
 type cbJob struct {
 	Schedules []cbSchedule `json:"schedules"`
 	Known     []string     `json:"known"`
 	Random    struct {
-		N    int   `json:"n"`
-		Seed int64 `json:"seed"`
+		N    int    `json:"n"`
+		Seed int64  `json:"seed"`
+		Tag  string `json:"tag"`
 	} `json:"random"`
 }
 
@@ -65,6 +68,7 @@ type cbViolation struct {
 	InOnData  bool     `json:"inondata"`
 	Steps     []cbStep `json:"steps"`
 	Kf        string   `json:"kf"`
+	KeepPinned bool    `json:"keeppinned"`
 }
 
 type cbResult struct {
@@ -81,6 +85,8 @@ type cbResult struct {
 	Settles     int               `json:"settle_checks"`
 	OnDataCalls int               `json:"ondata_calls"`
 	LedgerChecks int              `json:"ledger_checks"`
+	// Points: how often each party (E event loop, U user, G callback goroutine) executed a scheduling point of a function
+	Points map[string]int `json:"points"`
 	Samples     []string          `json:"samples"`
 }
 
@@ -102,6 +108,7 @@ type cbWorld struct {
 	remoteCb  int
 	localCloseCalled bool
 	closedInOnData   bool
+	keepPinned       bool
 	offerAfterClose  bool
 	stepNo           int
 	closeReturnedAt  int               // step number at which a local Close() call returned (-1: none yet)
@@ -162,7 +169,9 @@ func (c *cbCallbacks) OnData(reader BufferReader) {
 				w.offered = append(w.offered, int(b[i+2]))
 			}
 		}
-		reader.ReleasePreviousRead()
+		if !w.keepPinned {
+			reader.ReleasePreviousRead()
+		}
 	}
 	vsYield("cb:ondata")
 	if w.inOnData && !w.closedInOnData {
@@ -300,6 +309,25 @@ func (w *cbWorld) stepThread(th *vsThread) {
 	}
 	w.stepNo++
 	ex, _ := vsStep(th)
+	if tf := os.Getenv("VS_TRACE"); tf != "" {
+		if f, err := os.OpenFile(tf, os.O_APPEND|os.O_CREATE|os.O_WRONLY, 0o644); err == nil {
+			fmt.Fprintf(f, "%d thread %d: %s -> now at %s\n", w.stepNo, th.id, ex, th.pos)
+			f.Close()
+		}
+	}
+	if w.res.Points != nil {
+		role := "G"
+		if th == w.ethr.th {
+			role = "E"
+		} else if th == w.uthr.th {
+			role = "U"
+		}
+		fn := ex
+		if i := strings.Index(fn, ":"); i > 0 {
+			fn = fn[:i]
+		}
+		w.res.Points[role+" "+fn]++
+	}
 	if strings.HasPrefix(ex, "Stream.getStreamState") {
 		w.lastStateLoad[th] = w.stepNo
 	}
@@ -401,7 +429,7 @@ func (w *cbWorld) do(st cbStep) bool {
 		}
 		w.stepThread(w.ethr.th) // runs to the first scheduling point (pendingData.add already done for data)
 		return true
-	case "EChk", "ECas", "EHalf":
+	case "EChk", "ECas", "ERechk", "EUndo", "EHalf":
 		if w.ethr.th.pos == "idle" {
 			return false
 		}
@@ -542,7 +570,7 @@ func TestVS_Callback(t *testing.T) {
 	if err := json.Unmarshal(b, &job); err != nil {
 		t.Fatal(err)
 	}
-	res := &cbResult{Violations: []cbViolation{}, Drift: []string{}, Samples: []string{}, KnownHits: map[string]int{}, KnownWit: map[string]string{}}
+	res := &cbResult{Violations: []cbViolation{}, Drift: []string{}, Samples: []string{}, KnownHits: map[string]int{}, KnownWit: map[string]string{}, Points: map[string]int{}}
 	defer func() {
 		out, _ := json.Marshal(res)
 		os.WriteFile(os.Getenv("VS_OUT"), out, 0o644)
@@ -567,6 +595,7 @@ func TestVS_Callback(t *testing.T) {
 			known = nil
 		}
 		w := cbNewWorld(pair, sc.Events, sc.InOnData, known, res)
+		w.keepPinned = sc.KeepPinned
 		drift := false
 		func() {
 			defer func() {
@@ -607,6 +636,7 @@ func TestVS_Callback(t *testing.T) {
 		if w.viol != nil {
 			w.viol.Schedule, w.viol.Steps = sc.Name, sc.Steps
 			w.viol.Events, w.viol.UserClose, w.viol.InOnData = sc.Events, sc.UserClose, sc.InOnData
+			w.viol.KeepPinned = sc.KeepPinned
 			w.viol.Kf = w.kf
 			res.Violations = append(res.Violations, *w.viol)
 		}
@@ -620,7 +650,7 @@ func TestVS_Callback(t *testing.T) {
 			mkPair()
 		} else if d := w.cleanup(); d != "" {
 			res.Violations = append(res.Violations, cbViolation{Property: "C09", Kind: "ledger", Detail: d, Schedule: sc.Name, Steps: sc.Steps,
-				Events: sc.Events, UserClose: sc.UserClose, InOnData: sc.InOnData, Kf: w.kf})
+				Events: sc.Events, UserClose: sc.UserClose, InOnData: sc.InOnData, KeepPinned: sc.KeepPinned, Kf: w.kf})
 			mkPair()
 		}
 		res.LedgerChecks++
@@ -636,9 +666,13 @@ func TestVS_Callback(t *testing.T) {
 	alphabet := []string{"ddd", "ddc", "d", "dddd", "dc", "dd", "dddc"}
 	for r := 0; r < job.Random.N; r++ {
 		ev := alphabet[rng.Intn(len(alphabet))]
-		sc := cbSchedule{Name: fmt.Sprintf("random seed=%d run=%d", job.Random.Seed, r), Events: ev, UserClose: rng.Intn(2) == 0, InOnData: rng.Intn(4) == 0}
+		sc := cbSchedule{Name: fmt.Sprintf("random%s seed=%d run=%d", job.Random.Tag, job.Random.Seed, r), Events: ev, UserClose: rng.Intn(2) == 0, InOnData: rng.Intn(4) == 0,
+			KeepPinned: job.Random.Tag != "" && rng.Intn(2) == 0}
 		w := cbNewWorld(pair, sc.Events, sc.InOnData, job.Known, res)
+		w.keepPinned = sc.KeepPinned
 		userStarted := false
+		sticky := job.Random.Tag != "" && rng.Intn(2) == 0
+		var lastTh *vsThread
 		func() {
 			defer func() {
 				if rec := recover(); rec != nil {
@@ -670,6 +704,20 @@ func TestVS_Callback(t *testing.T) {
 					break
 				}
 				c := cs[rng.Intn(len(cs))]
+				// sticky runs: a party keeps going for long stretches (few preemptions at random places), which reaches
+				// "one party overtakes the other inside a section" orderings that uniform stepping makes very unlikely
+				if sticky && lastTh != nil && rng.Intn(100) < 85 {
+					for _, k := range cs {
+						if k.kind == 0 && k.th == lastTh {
+							c = k
+							break
+						}
+					}
+				}
+				lastTh = nil
+				if c.kind == 0 {
+					lastTh = c.th
+				}
 				switch c.kind {
 				case 0:
 					w.stepThread(c.th)
@@ -691,6 +739,7 @@ func TestVS_Callback(t *testing.T) {
 		if w.viol != nil {
 			w.viol.Schedule, w.viol.Steps = sc.Name, sc.Steps
 			w.viol.Events, w.viol.UserClose, w.viol.InOnData = sc.Events, sc.UserClose, sc.InOnData
+			w.viol.KeepPinned = sc.KeepPinned
 			w.viol.Kf = w.kf
 			res.Violations = append(res.Violations, *w.viol)
 		}
@@ -700,7 +749,7 @@ func TestVS_Callback(t *testing.T) {
 			mkPair()
 		} else if d := w.cleanup(); d != "" {
 			res.Violations = append(res.Violations, cbViolation{Property: "C09", Kind: "ledger", Detail: d, Schedule: sc.Name, Steps: sc.Steps,
-				Events: sc.Events, UserClose: sc.UserClose, InOnData: sc.InOnData, Kf: w.kf})
+				Events: sc.Events, UserClose: sc.UserClose, InOnData: sc.InOnData, KeepPinned: sc.KeepPinned, Kf: w.kf})
 			mkPair()
 		}
 		res.LedgerChecks++
